@@ -1486,6 +1486,18 @@ def judge(ctx, items, info, coq, stats, reps=None):
                       "transfers": [float(x) for x in mt["tr"]], "max_balance_residual": max([abs(float(x)) for x in rs.values()] or [0]),
                       "verdict": dict(zip(VERDICT_NAMES, verdict))}
             ctx.case(("model", c["text"], mi), sample=sample)
+            mm0 = r["models"][mi]
+            if pb["range"] and "rmin" in mm0 and not any(k_[2] < 0 for k_ in mm0.get("rkode", [])):
+                if mm0["rmin"] != mm0["min"][:len(mm0["rmin"])] or mm0["rmax"] != mm0["max"][:len(mm0["rmax"])]:
+                    stats["range replay mismatch"] += 1
+                    report(ctx, "C18:range-replay-mismatch",
+                           "the min/max stored by range() are not the optima (as computed by the engine's own cl1) of  minimise |x_i -/+ range_max|  over the "
+                           "constraint system of the reported model plus forced phases/solutions",
+                           {"kind": "input", "input_text": c["text"], "database": dbname(c), "model_index": mi,
+                            "observed": {"min": [float.fromhex(v) for v in mm0["min"]], "max": [float.fromhex(v) for v in mm0["max"]]},
+                            "expected": {"min": [float.fromhex(v) for v in mm0["rmin"]], "max": [float.fromhex(v) for v in mm0["rmax"]]}})
+                else:
+                    stats["range replay identical"] += 1
             if not supp_ok:
                 stats["mask/support mismatch"] += 1
                 report(ctx, "C18:mask-support-mismatch", "bit mask %s saved for a reported model is not the set of its non-zero fractions/transfers" % bin(g),
@@ -1529,15 +1541,33 @@ def judge(ctx, items, info, coq, stats, reps=None):
                 report(ctx, key, what, {"kind": "input", "input_text": c["text"], "database": dbname(c), "model_index": mi,
                                         "observed": obs, "expected": "check_inverse_model = true (Coq, exact arithmetic)"})
             if "range" in failed:
+                mm_ = r["models"][mi]
+                replayed = "rmin" in mm_ and not any(k_[2] < 0 for k_ in mm_.get("rkode", []))
+                same = replayed and mm_["rmin"] == mm_["min"][:len(mm_["rmin"])] and mm_["rmax"] == mm_["max"][:len(mm_["rmax"])]
+                if replayed:
+                    obs["range_replay"] = {"identical_to_reported_min_max": same,
+                                           "cl1_kode_and_iterations(i,direction,kode,iter,kode@100000,iter@100000)": mm_["rkode"],
+                                           "min_with_iteration_limit_100000": [float.fromhex(v) for v in mm_["bmin"]],
+                                           "max_with_iteration_limit_100000": [float.fromhex(v) for v in mm_["bmax"]]}
                 if "Error in subroutine range" in out:
                     key = "C18:range-cl1-error"
                     what = "range() prints 'Error in subroutine range' (cl1 failed) but still reports the min/max; a value lies outside its reported range"
+                elif same:
+                    # range() built exactly the LPs the specification prescribes and stored exactly what cl1 answered (bit for bit);
+                    # the reported vector satisfies the same constraint system, so cl1 returned a non-optimal vertex with kode 0
+                    key = "C18:range-outside:delicate"
+                    what = ("a value of a reported model lies outside its reported [min,max] range although no solver error is reported: range() "
+                            "poses the right optimisation problems (rebuilt independently from my_array/delta and solved with the engine's own "
+                            "shrink()/cl1(): bit-identical min/max, kode 0, far below the iteration limit), cl1 returns a non-optimal vertex")
+                elif replayed:
+                    key = None          # reported as C18:range-replay-mismatch below
                 else:
                     key = "C18:range-outside:" + stratum(pb)
                     what = "a value of a reported model lies outside its reported [min,max] range (no solver error reported)"
-                stats["range: " + key] += 1
-                report(ctx, key, what, {"kind": "input", "input_text": c["text"], "database": dbname(c), "model_index": mi,
-                                          "observed": obs, "expected": "min <= value <= max for every fraction and transfer"})
+                if key:
+                    stats["range: " + key] += 1
+                    report(ctx, key, what, {"kind": "input", "input_text": c["text"], "database": dbname(c), "model_index": mi,
+                                            "observed": obs, "expected": "min <= value <= max for every fraction and transfer"})
         if masks is not None:
             a = coq["A"].get(cid)
             if a is None:
